@@ -77,7 +77,7 @@ impl EdgeLabel for char {
 //@ret r
 //@head{
     ensures add_inv(r), reach_ok(r), r.len == 0, r.match_kind == match_kind, r.states@.len() == 2,
-        forall|q: Seq<L>| !seen(r, q),
+        forall|q: Seq<L>| !seen(r, q), fresh_links(r), r.outputs@.len() == 0,
 //@}
 //@start{
     proof { reveal(reach_ok); }
@@ -104,6 +104,8 @@ impl EdgeLabel for char {
                 // values (C06): the new pattern carries the value passed in, earlier ones keep theirs
                 &&& !add_shadowed(*old(self), pattern@) ==> is_registered(*final(self), pattern@) && reg_out(*final(self), pattern@).unwrap().0 == value
                 &&& forall|q: Seq<L>| is_registered(*old(self), q) ==> #[trigger] reg_out(*final(self), q) == reg_out(*old(self), q)
+                // add leaves fail links, output positions and the output vector alone
+                &&& final(self).outputs@ == old(self).outputs@ && (fresh_links(*old(self)) ==> fresh_links(*final(self)))
             },
             Err(e) => match e {
                 DaachorseError::InvalidArgument => pattern@.len() == 0 || byte_len(pattern@) > u32::MAX,
@@ -154,6 +156,7 @@ impl EdgeLabel for char {
         add_mid(n0, *self, pat, it2.index@ as int, state_id as int), reach_mid(n0, *self, pat, it2.index@ as int), reach_ok(n0),
         self.match_kind == n0.match_kind, self.len == n0.len, self.skipped == n0.skipped,
         (state_id as int) < n0.states@.len() ==> *self == n0,
+        self.outputs@ == n0.outputs@, fresh_links(n0) ==> fresh_links(*self),
         n0.match_kind is LeftmostFirst ==> forall|k: int| 0 <= k < it2.index@ ==> !#[trigger] is_registered(n0, pat.take(k)),
 //@}
 //@loopbody 2{
@@ -229,6 +232,7 @@ impl EdgeLabel for char {
         pattern@.len() > 0,
         exists|k: int| 0 <= k < pattern@.len() && is_registered(*old(self), pattern@.take(k))
     ensures final(self).match_kind == old(self).match_kind, final(self).states@ == old(self).states@, final(self).len == old(self).len,
+        final(self).outputs@ == old(self).outputs@,
         match r {
             Ok(_) => {
                 &&& add_inv(*final(self)) && reach_ok(*final(self)) && !seen(*old(self), pattern@)
